@@ -124,11 +124,13 @@ def _mol(ctx, case):
     if _bondset(els, X) != {frozenset((b.GetBeginAtomIdx(), b.GetEndAtomIdx())) for b in m.GetBonds()}:
         ctx.count("skipped:embedding-with-unphysical-contacts")
         return
-    # input sanity: unrelaxed ETKDG conformers occasionally contain a flattened sp3 centre (all four neighbours
-    # within 1 A of a common plane); such a conformer is not a 3D shape of this molecule
+    # input sanity: unrelaxed ETKDG conformers occasionally contain a flattened sp3 centre - one of its four
+    # neighbours lies within 1 A (+ margin) of the plane of the other three (an ideal CH4 has 1.45 A). Such a conformer
+    # is not a 3D shape of this molecule; when only SOME apexes are that close the library's planarity test moreover
+    # depends on the atom order, which is the recorded C07 finding and not what C14 is about.
     for a in m.GetAtoms():
         if a.GetDegree() == 4 and a.GetHybridization() == Chem.HybridizationType.SP3:
-            if geom._max_plane_dist(X, [n.GetIdx() for n in a.GetNeighbors()]) < 1.2:
+            if min(geom.apex_distances(X, [n.GetIdx() for n in a.GetNeighbors()])) < 1.2:
                 ctx.count("skipped:embedding-with-flattened-sp3-centre")
                 return
     ph = _classify(m)
@@ -171,6 +173,8 @@ def _mol(ctx, case):
             e = b["astereo"].get(k2)
             if e is None:
                 what = f"{d[0]}-only-from-annotations" + ("+placeholder" if None in d[1] else "")
+            elif e[0] != d[0]:
+                what = f"{d[0]}-vs-{e[0]}"
             elif not sem.desc_equiv(d, e) and what == "unknown":
                 what = f"{d[0]}-parity"
         for k2, d in b["astereo"].items():
